@@ -1,4 +1,426 @@
+mod driver;
+mod model;
+use mc::report::{load_replay, run_replay};
+use mc::{Bounds, Known, Report, RunStats};
+use model::*;
+
+fn bad_dens(t: Tok) -> Vec<Den> {
+    vec![
+        Den::OtherChannel(Base::Tok(t)),
+        Den::OtherPort(Base::Tok(t)),
+        Den::Foreign(Base::Tok(t)),
+        Den::LocalPrefix(Base::Tok(t)),
+        Den::Nested(Base::Tok(t)),
+        Den::TwoParts,
+    ]
+}
+
+const N0: Tok = Tok::Native(0);
+const T1: Tok = Tok::Cw20(0);
+const T2: Tok = Tok::Cw20(1);
+
+/// one native token, two channels
+fn native_cfg(name: &str, thorough: bool) -> Cfg {
+    let mut c = Cfg::base(name);
+    c.funds = vec![(A, N0, 2), (B, N0, 1)];
+    c.senders = vec![A, B];
+    c.send_toks = vec![N0];
+    c.proper = vec![Base::Tok(N0), Base::Unknown];
+    c.bad = bad_dens(N0);
+    c.fault_bound = 1;
+    c.fault_kinds = vec![Fault::Reject];
+    if thorough {
+        c.funds = vec![(A, N0, 3), (B, N0, 1)];
+        c.send_amounts = vec![1, 2, 3];
+        c.bad_amounts = vec![1, 3, U64MAX + 1];
+        c.receivers = vec![Rcv::User(B), Rcv::User(A), Rcv::Invalid];
+        c.raws = vec![0, 1, 2, 3];
+        c.fault_bound = 2;
+        c.max_inflight = 3;
+    }
+    c
+}
+
+/// one cw20 token on the allow list (with or without limit), two channels
+fn cw20_cfg(name: &str, limit: Option<u64>, thorough: bool) -> Cfg {
+    let mut c = Cfg::base(name);
+    c.tokens = 1;
+    c.allow_init = vec![(0, limit)];
+    c.funds = vec![(A, T1, 2), (B, T1, 1)];
+    c.senders = vec![A, B];
+    c.send_toks = vec![T1];
+    c.proper = vec![Base::Tok(T1), Base::Unknown, Base::BadCw20, Base::Cw20NoContract];
+    c.bad = bad_dens(T1);
+    c.fault_bound = 1;
+    c.fault_kinds = if limit.is_some() { vec![Fault::Reject, Fault::Gas] } else { vec![Fault::Reject] };
+    if thorough {
+        c.funds = vec![(A, T1, 3), (B, T1, 1)];
+        c.send_amounts = vec![1, 2, 3];
+        c.bad_amounts = vec![1, 3, U64MAX + 1];
+        c.receivers = vec![Rcv::User(B), Rcv::User(A), Rcv::Invalid];
+        c.raws = vec![0, 1, 2, 3];
+        c.fault_bound = 2;
+        c.max_inflight = 3;
+    }
+    c
+}
+
+/// two cw20 tokens: T1 listed, T2 admitted by the default gas limit only
+fn default_cfg(name: &str, thorough: bool) -> Cfg {
+    let mut c = Cfg::base(name);
+    c.tokens = 2;
+    c.allow_init = vec![(0, Some(1))];
+    c.default_gas = Some(2);
+    c.funds = vec![(A, T1, 1), (A, T2, 2)];
+    c.senders = vec![A];
+    c.send_toks = vec![T1, T2];
+    c.proper = vec![Base::Tok(T1), Base::Tok(T2)];
+    c.bad = vec![Den::OtherChannel(Base::Tok(T2)), Den::Foreign(Base::Tok(T2))];
+    c.recv_amounts = vec![1, 2, 3];
+    c.fault_bound = 1;
+    c.fault_kinds = vec![Fault::Reject, Fault::Gas];
+    c.raws = vec![0];
+    if thorough {
+        c.funds = vec![(A, T1, 2), (A, T2, 2), (B, T2, 1)];
+        c.senders = vec![A, B];
+        c.fault_bound = 2;
+    }
+    c
+}
+
+/// native + cw20 together (thorough only)
+fn pair_cfg(name: &str) -> Cfg {
+    let mut c = Cfg::base(name);
+    c.tokens = 1;
+    c.allow_init = vec![(0, Some(1))];
+    c.funds = vec![(A, N0, 2), (A, T1, 2), (B, N0, 1)];
+    c.senders = vec![A, B];
+    c.send_toks = vec![N0, T1];
+    c.proper = vec![Base::Tok(N0), Base::Tok(T1), Base::Unknown];
+    c.bad = vec![
+        Den::OtherChannel(Base::Tok(N0)),
+        Den::OtherChannel(Base::Tok(T1)),
+        Den::Foreign(Base::Tok(N0)),
+        Den::OtherPort(Base::Tok(T1)),
+    ];
+    c.recv_amounts = vec![1, 2, 3];
+    c.fault_bound = 1;
+    c.fault_kinds = vec![Fault::Reject, Fault::Gas];
+    c
+}
+
+/// storage in the 0.11.1 / 0.12.0-alpha1 layout with a cw20 token outstanding, migrated by the first action
+fn v1_cfg(name: &str, version: &'static str, thorough: bool) -> Cfg {
+    let mut c = Cfg::base(name);
+    c.channels = 1;
+    c.tokens = 1;
+    c.old = Some(Old {
+        version,
+        v1: true,
+        counted: vec![(T1, 2)],
+        inflight: vec![],
+    });
+    c.first_migrate = vec![None, Some(2)];
+    c.funds = vec![(A, T1, 1), (B, T1, 1)];
+    c.senders = vec![A];
+    c.send_toks = vec![T1];
+    c.send_amounts = vec![1];
+    c.proper = vec![Base::Tok(T1), Base::Unknown];
+    c.bad = vec![Den::Foreign(Base::Tok(T1)), Den::OtherPort(Base::Tok(T1))];
+    c.recv_amounts = vec![1, 2, 3];
+    c.fault_bound = 1;
+    c.fault_kinds = vec![Fault::Reject, Fault::Gas];
+    c.gov_actors = vec![G];
+    c.allow_tokens = vec![0];
+    c.allow_limits = vec![None, Some(1)];
+    c.raws = vec![0];
+    if thorough {
+        c.old.as_mut().unwrap().inflight = vec![(A, T1, 1)];
+        c.old.as_mut().unwrap().counted = vec![(T1, 2), (N0, 1)];
+        c.funds = vec![(A, T1, 1), (B, T1, 1), (A, N0, 1)];
+        c.send_toks = vec![T1, N0];
+        c.proper = vec![Base::Tok(T1), Base::Tok(N0), Base::Unknown];
+        c.first_migrate = vec![None, Some(2)];
+        c.migrate_limits = vec![None, Some(3)];
+    }
+    c
+}
+
+/// storage of version 0.13.0: balances counted at acknowledgement, sends in flight not yet counted
+fn v2_cfg(name: &str, thorough: bool) -> Cfg {
+    let mut c = Cfg::base(name);
+    c.channels = 1;
+    c.tokens = 1;
+    c.allow_init = vec![(0, Some(1))];
+    c.old = Some(Old {
+        version: "0.13.0",
+        v1: false,
+        counted: vec![(N0, 1), (T1, 1)],
+        inflight: vec![(A, N0, 1), (A, T1, 1)],
+    });
+    c.first_migrate = vec![None, Some(2)];
+    c.funds = vec![(A, N0, 1), (A, T1, 1)];
+    c.senders = vec![A];
+    c.send_toks = vec![N0, T1];
+    c.send_amounts = vec![1];
+    c.proper = vec![Base::Tok(N0), Base::Tok(T1)];
+    c.bad = vec![Den::Foreign(Base::Tok(N0))];
+    c.recv_amounts = vec![1, 2, 3];
+    c.max_inflight = 3;
+    c.fault_bound = 1;
+    c.fault_kinds = vec![Fault::Reject, Fault::Gas];
+    c.raws = vec![0];
+    if thorough {
+        c.fault_bound = 2;
+        c.migrate_limits = vec![None, Some(3)];
+    }
+    c
+}
+
+fn configs(prop: &str, thorough: bool) -> Vec<(Cfg, Option<usize>)> {
+    let mut out: Vec<(Cfg, Option<usize>)> = vec![];
+    match prop {
+        "C11" => {
+            let p = Props { c11: true, ..Default::default() };
+            let mut v = vec![
+                native_cfg("C11/native/2ch", thorough),
+                cw20_cfg("C11/cw20-listed-limit1/2ch", Some(1), thorough),
+                default_cfg("C11/cw20-T2-under-default-limit/2ch", thorough),
+            ];
+            if thorough {
+                v.push(cw20_cfg("C11/cw20-listed-unlimited/2ch", None, thorough));
+                v.push(pair_cfg("C11/native+cw20/2ch"));
+                v.push(v1_cfg("C11/upgrade/v1-0.11.1", "0.11.1", false));
+                v.push(v2_cfg("C11/upgrade/v2-0.13.0-inflight", false));
+            }
+            for mut c in v {
+                c.props = p.clone();
+                out.push((c, None));
+            }
+        }
+        "C12" => {
+            let p = Props { c12: true, ..Default::default() };
+            let mut v = vec![];
+            // governance configurations × fresh instantiation
+            v.push(native_cfg("C12/fresh/native/no-allowlist-no-default", thorough));
+            v.push(cw20_cfg("C12/fresh/cw20/listed-limit1", Some(1), thorough));
+            v.push(default_cfg("C12/fresh/cw20/T1-listed+T2-under-default", thorough));
+            if thorough {
+                v.push(cw20_cfg("C12/fresh/cw20/listed-unlimited", None, thorough));
+                v.push(pair_cfg("C12/fresh/native+cw20"));
+            }
+            {
+                // cw20 refused: not listed, no default; governance may list it later
+                let mut c = cw20_cfg("C12/fresh/cw20/unlisted-then-allowed", Some(1), false);
+                c.allow_init = vec![];
+                c.gov_actors = vec![G];
+                c.allow_tokens = vec![0];
+                c.allow_limits = vec![Some(1)];
+                c.channels = 1;
+                v.push(c);
+            }
+            // upgrade paths
+            v.push(v1_cfg("C12/upgrade/v1-0.11.1", "0.11.1", thorough));
+            v.push(v1_cfg("C12/upgrade/v1-0.12.0-alpha1", "0.12.0-alpha1", thorough));
+            v.push(v2_cfg("C12/upgrade/v2-0.13.0-inflight", thorough));
+            {
+                // same-version migrate at every reachable state
+                let mut c = cw20_cfg("C12/same-version-migrate-everywhere", Some(1), false);
+                c.channels = 1;
+                c.migrate_limits = vec![None, Some(2)];
+                c.fault_bound = if thorough { 1 } else { 0 };
+                v.push(c);
+            }
+            {
+                // packet fields: requested / default timeout at two block times, memo, both token kinds
+                let mut c = Cfg::base("C12/packet-fields/timeout+memo+clock");
+                c.channels = if thorough { 2 } else { 1 };
+                c.tokens = 1;
+                c.allow_init = vec![(0, None)];
+                c.funds = vec![(A, N0, 1), (A, T1, 1), (B, N0, 1)];
+                c.senders = vec![A, B];
+                c.send_toks = vec![N0, T1];
+                c.send_amounts = vec![1];
+                c.variants = vec![(None, None), (Some(7), Some("m")), (Some(0), None), (None, Some(""))];
+                c.proper = vec![Base::Tok(N0), Base::Tok(T1)];
+                c.recv_amounts = vec![1];
+                c.receivers = vec![Rcv::User(B)];
+                c.raws = vec![];
+                c.ack_kinds = vec![AckKind::Error];
+                c.timeouts = true;
+                c.hmax = H0 + 1;
+                v.push(c);
+            }
+            {
+                // 2^64-1 is accepted, 2^64 refused, for both token kinds
+                let mut c = Cfg::base("C12/edge/u64-boundary");
+                c.channels = 1;
+                c.tokens = 1;
+                c.allow_init = vec![(0, None)];
+                c.funds = vec![(A, N0, U64MAX + 1), (A, T1, U64MAX + 1)];
+                c.senders = vec![A];
+                c.send_toks = vec![N0, T1];
+                // no small amounts here: with 2^64 tokens they would make the space astronomically large
+                c.send_amounts = vec![U64MAX, U64MAX + 1];
+                c.proper = vec![Base::Tok(N0), Base::Tok(T1)];
+                c.recv_amounts = vec![U64MAX, U64MAX + 1];
+                c.bad_amounts = vec![];
+                c.receivers = vec![Rcv::User(B)];
+                c.raws = vec![];
+                c.max_inflight = 2;
+                v.push(c);
+            }
+            for mut c in v {
+                c.props = p.clone();
+                out.push((c, None));
+            }
+        }
+        "C18" => {
+            let p = Props { c18: true, ..Default::default() };
+            let inits: Vec<(&str, Vec<(u8, Option<u64>)>)> = vec![
+                ("allow[]", vec![]),
+                ("allow[T1:unlimited]", vec![(0, None)]),
+                ("allow[T1:1]", vec![(0, Some(1))]),
+            ];
+            let defaults: Vec<(&str, Option<u64>)> = vec![("default-none", None), ("default-2", Some(2))];
+            for (an, allow) in &inits {
+                for (dn, dflt) in &defaults {
+                    if !thorough && *an == "allow[T1:unlimited]" && dflt.is_some() {
+                        continue;
+                    }
+                    let mut c = Cfg::base(&format!("C18/{an}/{dn}"));
+                    c.props = p.clone();
+                    c.channels = 1;
+                    c.tokens = 2;
+                    c.allow_init = allow.clone();
+                    c.default_gas = *dflt;
+                    c.funds = vec![(A, T1, 1), (A, T2, 1), (A, N0, 1)];
+                    c.senders = vec![A];
+                    c.send_toks = vec![T1, T2, N0];
+                    c.send_amounts = vec![1];
+                    c.proper = vec![Base::Tok(T1), Base::Tok(T2), Base::Tok(N0)];
+                    c.recv_amounts = vec![1];
+                    c.receivers = vec![Rcv::User(B)];
+                    c.raws = vec![];
+                    c.ack_kinds = vec![AckKind::Error];
+                    c.timeouts = true;
+                    c.max_inflight = if thorough { 2 } else { 1 };
+                    c.gov_actors = vec![G, G2, X];
+                    c.allow_tokens = vec![0, 1];
+                    c.allow_limits = vec![None, Some(1), Some(2), Some(3)];
+                    c.admin_targets = vec![G, G2];
+                    c.migrate_limits = vec![None, Some(1), Some(3)];
+                    if !thorough {
+                        c.allow_limits = vec![None, Some(1), Some(3)];
+                        c.migrate_limits = vec![None, Some(3)];
+                    }
+                    out.push((c, None));
+                }
+            }
+        }
+        _ => {}
+    }
+    // quick and thorough variants of a configuration differ: the tier is part of the (replay) name
+    for (c, _) in out.iter_mut() {
+        c.name = format!("{}@{}", c.name, if thorough { "thorough" } else { "quick" });
+    }
+    out
+}
+
+fn describe(prop: &str) -> (&'static str, &'static str) {
+    match prop {
+        "C11" => (
+            "user Transfer (native, with funds) and cw20 Send{TransferMsg} of 1-2 (thorough 1-3) tokens by A and B on either of two channels while < 2 (3) packets are in flight; incoming packets on either channel with denom in {proper voucher of this channel for the sent token / a never-sent token / cw20:<garbage> / cw20:<non-contract>, voucher prefix of the OTHER channel, other port, un-prefixed foreign denom, our own port/channel prefix, doubled prefix, two-part denom}, amount in {1,2,3,2^64}, receiver in {valid user(s), invalid address}, raw non-ICS20 bytes; for every packet in flight Ack(success) | Ack(error) | Ack(garbage) | Timeout in any order; payout / refund sub-call made to fail (recipient or token rejects; every gas-limited sub-call runs out of gas), at most 1 (thorough 2) faults per history",
+            "after every step, for every token: real holdings of the ics20 contract (kernel bank / cw20 Balance) >= sum over channels of Channel{id}.balances; monitor per (channel, denom): credit = escrowed by accepted transfers - really paid out (redemptions + refunds, measured as falls of the contract's real balance in steps on that channel) >= 0; a packet whose denom is not a proper voucher of this channel for a local token, or whose amount exceeds the channel balance reported before the step, or that is not ICS-20 data moves no bank or cw20 balance at all; holdings never move in governance / migrate steps",
+        ),
+        "C12" => (
+            "the C11 alphabet over the governance configurations {no allow list & no default, T1 listed with limit, T1 listed + T2 admitted by the default limit, unlisted token allowed later by governance, (thorough) unlimited, native+cw20}; storages built byte-wise in the 0.11.1 and 0.12.0-alpha1 layout (v1 ics20_config = {default_timeout, gov_contract}, no admin item, no allow list, cw20 T1 outstanding and escrowed) and in the 0.13.0 layout (sends in flight escrowed but not yet counted), each followed by Migrate{None | Some(2)} and then transfers, packets, acks, timeouts, Allow by governance; same-version Migrate{None|Some} at every reachable state; transfers with requested / default timeout, memo set / unset / empty at two block times; amounts 1, 2^64-1, 2^64 for native and cw20",
+            "reference per (channel, denom): outstanding = accepted sends - sends whose error-ack/timeout was processed - amounts of incoming packets answered with a success ack, compared with Channel{id}.balances after every step; total_sent never falls; per incoming packet: ibc_packet_receive never returns Err/panics; success ack => receiver's real balance rose by exactly the amount and the channel balance fell by it; error ack => ALL Channel queries, all bank and cw20 balances, Config, Admin, ListAllowed, Allowed and the packets in flight equal the pre-state; per accepted transfer: exactly one committed IbcMsg::SendPacket, by the ics20 contract, on the requested channel, data == {amount (<= 2^64-1), denom (native name | cw20:<token>), receiver, sender = paying user, memo iff requested}, timeout timestamp == block time + (requested | default) seconds, contract holdings rose and payer's balance fell by the amount; migrations leave balances alone and arrive at outstanding == escrow",
+        ),
+        "C18" => (
+            "initial allow lists [] | [T1:unlimited] | [T1:1] x default gas limit None | 2; Allow{T1|T2, None|1|2|3} and UpdateAdmin{G|G2} by governance G, the later/former governance G2 and a stranger X; Migrate{None|1|3} at every state; cw20 transfers of T1 and T2 and native transfers; incoming packets redeeming them; error acks and timeouts that trigger refunds",
+            "reference {gov, allow: token -> limit, default} == Admin, Config.gov_contract, Config.default_gas_limit, fully paged ListAllowed, Allowed{T1}, Allowed{T2} after every step; Allow / UpdateAdmin accepted only from the reference governance; admin, allow list and default change in no other step (migrate may set, never unset, the default); a listed token never disappears, its limit never falls, unlimited stays unlimited (checked against the reference and, independently, pre vs. post listing); a cw20 transfer is accepted only if the token is listed or a default exists; every payout / refund sub-message dispatched by the contract carries gas_limit == allow[token] if listed (None if unlimited) else the default, native payouts carry none",
+        ),
+        _ => ("", ""),
+    }
+}
+
+fn run(prop: &str, tier: &str) -> i32 {
+    let thorough = tier == "thorough";
+    let cfgs = configs(prop, thorough);
+    if cfgs.is_empty() {
+        eprintln!("fam-ics20 does not serve {prop}");
+        return 2;
+    }
+    let known = Known::load(prop);
+    let mut rep = Report::new(prop, tier, "ics20");
+    let (alpha, oracle) = describe(prop);
+    rep.alphabet = alpha.into();
+    rep.oracle = oracle.into();
+    rep.bounds = "every configuration is a closed system (finite funds, at most 2-3 packets in flight, clock capped, bounded number of injected faults kept in the state) and is explored breadth-first to its fixpoint; state cap 8e6 / time cap per configuration".into();
+    rep.assumptions = vec![
+        "IBC driver: storage written by ibc_packet_receive is committed whenever the entry point returns Ok, whatever acknowledgement it chose; a reply that sets data replaces the acknowledgement".into(),
+        "IBC driver: Err or panic from any entry point (execute, ibc_packet_receive/ack/timeout, reply, migrate) reverts the whole step; a packet whose ack/timeout callback failed stays in flight".into(),
+        "IBC driver: a sent packet is acknowledged or timed out at most once and only if it was sent; packet.src/dest carry the channel's true endpoints; denom, amount, receiver and raw bytes of incoming packets are adversarial".into(),
+        "fault injection: the payout/refund sub-call of one IBC step fails because the recipient/token rejects or because every gas-limited sub-call runs out of gas; gas is not metered otherwise".into(),
+        "ChannelState.total_sent is left out of the state key (it is write-only for the contract; clauses about it are per-transition), packet sequence numbers are normalised (no entry point reads them)".into(),
+        "amount alphabet is {1,2,3} plus the 2^64 boundary values, not all of u128; channels are opened with the real ibc_channel_open/connect (ics20-1, unordered)".into(),
+    ];
+    // One OS thread + one private rayon pool per configuration: mc::bfs parallelises each level
+    // with par_iter, and inside a shared pool a waiting BFS would steal (and run to completion)
+    // another configuration's whole search, which falsifies the per-configuration time caps.
+    let seed = mc::report::seed();
+    let threads = std::thread::available_parallelism().map(|n| n.get()).unwrap_or(8);
+    let per = (threads / cfgs.len().min(3)).max(2);
+    let runs: Vec<RunStats> = std::thread::scope(|sc| {
+        let hs: Vec<_> = cfgs
+            .iter()
+            .map(|(c, d)| {
+                let known = &known;
+                sc.spawn(move || {
+                    let m = Ics20Model { cfg: c.clone() };
+                    let b = Bounds {
+                        max_depth: *d,
+                        max_states: 8_000_000,
+                        max_secs: if thorough { 3000.0 } else { 300.0 },
+                    };
+                    let pool = rayon::ThreadPoolBuilder::new().num_threads(per).build().expect("thread pool");
+                    pool.install(|| mc::bfs(&m, &b, known, seed))
+                })
+            })
+            .collect();
+        hs.into_iter().map(|h| h.join().expect("explorer thread panicked")).collect()
+    });
+    if std::env::var("ICS20_VERBOSE").is_ok() {
+        for r in &runs {
+            eprintln!(
+                "  {:55} states={:8} trans={:10} depth={:3} fix={} cap={:?} wall={:.1}s",
+                r.config, r.states, r.transitions, r.depth_completed, r.fixpoint, r.cap_hit, r.wall_s
+            );
+        }
+    }
+    rep.runs = runs;
+    rep.finish()
+}
+
 fn main() {
-    eprintln!("fam-ics20: not built yet");
-    std::process::exit(2);
+    mc::world::silence_panics();
+    let a = mc::parse_args();
+    let code = if a.cmd == "replay" {
+        let rf = load_replay(a.path.as_deref().unwrap_or(""));
+        let all: Vec<(Cfg, Option<usize>)> = configs(&rf.property, false)
+            .into_iter()
+            .chain(configs(&rf.property, true))
+            .collect();
+        match all.into_iter().find(|(c, _)| c.name == rf.config) {
+            Some((c, _)) => run_replay(&Ics20Model { cfg: c }, &rf),
+            None => {
+                eprintln!("machinery error: unknown config {}", rf.config);
+                2
+            }
+        }
+    } else {
+        run(&a.cmd, &a.tier)
+    };
+    std::process::exit(code);
 }
